@@ -383,6 +383,28 @@ func genOrphanPool(g *core.Gen) {
 // attach list, after it, and two of them; branch delivered in order (re-organisation at the 4th
 // side block) and in reverse (orphan chain flushed by the fork child).
 func genAttachPositions(g *core.Gen) {
+	// a known-invalid block 2, 3, 4 links below a newly delivered block whose parent is not marked:
+	// the walk of getReorganizeNodes must look at every node, not only the first
+	for nb := 1; nb <= 4; nb++ {
+		m := nb + 1
+		x := m + 1
+		a := func(j int) int { return x + j }     // A_j, j = 1..m
+		b := func(j int) int { return x + m + j } // B_j, j = 1..nb+2
+		var ds []string
+		for i := 1; i <= m; i++ {
+			ds = append(ds, fmt.Sprintf("b%d", i))
+		}
+		ds = append(ds, fmt.Sprintf("b%d", x))
+		for j := 1; j < m; j++ {
+			ds = append(ds, fmt.Sprintf("b%d", a(j)))
+		}
+		for j := 1; j <= nb; j++ {
+			ds = append(ds, fmt.Sprintf("b%d", b(j)))
+		}
+		ds = append(ds, fmt.Sprintf("b%d", a(m)), fmt.Sprintf("b%d", b(nb+1)), fmt.Sprintf("b%d", b(nb+2)),
+			fmt.Sprintf("h%d", b(nb+2)), fmt.Sprintf("h%d", b(1)), fmt.Sprintf("h%d", x), fmt.Sprintf("b%d", b(nb+1)))
+		g.Case("hf-known-invalid-deep", true, fmt.Sprintf("C17 hf 0:%d,0:1,%d:%d,%d:%d %d %s", m, x, m, x, nb+2, x, strings.Join(ds, " ")))
+	}
 	for _, bad := range []string{"4", "5", "6", "7", "8", "4.7", "5.6", "6.8", "-"} {
 		g.Case("hf-attach-positions", true, fmt.Sprintf("C17 hf 0:3,0:5 %s b1 b2 b3 h4 b4 b5 b6 b7 b8 h5 h6 h7 h8 b5 b8", bad))
 		g.Case("hf-attach-positions", true, fmt.Sprintf("C17 hf 0:3,0:5 %s b1 b2 b3 b8 b7 b6 b5 h8 b4 h4 h5 h6 h7 h8 b6", bad))
